@@ -281,6 +281,14 @@ theorem esc_cmd (fuel : Nat) (ih : Esc fuel) : ∀ s c, Within (loops s.stack) (
     | continue_ => exact within_applyErrexit _ _
     | break_ d => exact within_applyErrexit _ _
     | outOfFuel => trivial
+  | asyncWait body =>
+    simp only [execCmd]
+    generalize execList fuel (s.push .subshell) body = x
+    obtain ⟨c1, r⟩ := x
+    cases r with
+    | continue_ => simp only []; exact within_applyErrexit _ _
+    | break_ d => simp only []; exact within_applyErrexit _ _
+    | outOfFuel => trivial
   | ifc cond body elifs els =>
     simp only [execCmd]
     have h1 := ih.list (s.push .condition) cond
